@@ -282,8 +282,15 @@ def _iterable_guards(fn_node, call, truth_names):
         elif isinstance(it, ast.Name) and depth < 2:
             defs = [n for n in ast.walk(fn_node) if isinstance(n, ast.Assign) and any(isinstance(t, ast.Name) and t.id == it.id for t in n.targets)]
             defs = [d for d in defs if order_key(d) < order_key(call)]
-            if defs:
-                conds(sorted(defs, key=lambda d: d.lineno)[-1].value, depth + 1)
+            # the latest definition that is sure to have run: a (re)definition under a condition the call site is not
+            # under may have been skipped, so its filter proves nothing - look at what it refined instead
+            call_guards = {id(t) for t, _ in expr_guards(call, stop=fn_node)}
+            for d in sorted(defs, key=lambda d: order_key(d), reverse=True):
+                own = [t for t, _ in expr_guards(d, stop=fn_node) if id(t) not in call_guards]
+                if own:
+                    continue
+                conds(d.value, depth + 1)
+                break
 
     for it, _names in iters:
         conds(it)
